@@ -614,6 +614,31 @@ func tupleOrSingle(t types.Type, vals []*Val) *Val {
 
 func (vc *VC) callFunc(fr *Frame, st *State, x *ssa.Call, callee *ssa.Function, args []*Val, binds []*Val) *Val {
 	rt := x.Type()
+	// cut points placed before this call by the contract of the function under proof
+	if fr.depth == 0 && fr.con != nil && len(fr.con.Asserts) > 0 {
+		nm := fnDisplayName(callee)
+		if i := strings.LastIndex(nm, "."); i >= 0 && fr.con.Asserts[nm+"#0"] == nil {
+			// allow the short method name too
+			_ = i
+		}
+		k := fr.idxN["assertsite:"+nm]
+		fr.idxN["assertsite:"+nm] = k + 1
+		for _, key := range []string{fmt.Sprintf("%s#%d", nm, k), fmt.Sprintf("%s#%d", nm[strings.LastIndex(nm, ".")+1:], k)} {
+			for _, c := range fr.con.Asserts[key] {
+				env := vc.loopEnvAt(fr, st)
+				for n, v := range fr.specVars {
+					env.vars[n] = v
+				}
+				g, err := env.evalBool(c.E)
+				if err != nil {
+					vc.oblige(st, "spec-error", "assert/"+c.Name, "false", c.Pos, err.Error())
+					continue
+				}
+				vc.oblige(st, "assert", c.Name, g, c.Pos, c.Src)
+				vc.assume(implies(st.reach, g))
+			}
+		}
+	}
 	if con := vc.eng.contractOf(callee); con != nil && !(fr.depth == 0 && false) {
 		return vc.callByContract(fr, st, x, callee, con, args)
 	}
@@ -844,7 +869,13 @@ func (vc *VC) applyModifies(fr *Frame, st, old *State, con *Contract, env *Env) 
 		for _, tg := range heapT[k] {
 			outside = append(outside, fmt.Sprintf("(not (and (<= %s a) (< a %s)))", tg.lo, tg.hi))
 		}
-		vc.assume(fmt.Sprintf("(forall ((a Int)) (! (=> %s (= (select %s a) (select %s a))) :pattern ((select %s a))))", and(outside...), nh, h, nh))
+		if len(heapT[k]) == 0 {
+			// allocation only: also trigger on reads of the old heap, so that facts
+			// about existing objects carry over to the new heap term
+			vc.assume(fmt.Sprintf("(forall ((a Int)) (! (=> %s (= (select %s a) (select %s a))) :pattern ((select %s a)) :pattern ((select %s a))))", and(outside...), nh, h, nh, h))
+		} else {
+			vc.assume(fmt.Sprintf("(forall ((a Int)) (! (=> %s (= (select %s a) (select %s a))) :pattern ((select %s a))))", and(outside...), nh, h, nh))
+		}
 		vc.assume(vc.refsBelowAxiom(nh, t, st.alloc))
 		st.heaps[k] = nh
 	}
